@@ -128,6 +128,28 @@ func parseObserved(src string, v int) ParseOut {
 	return ParseOut{Prog: prog, Err: err, Errors: p.Errors(), P: p}
 }
 
+// parseHeadByHand parses the first statement through ParseStatement / NextToken and the rest through ParseProgram on
+// the same parser; the error list is the parser's, read at the end.
+func parseHeadByHand(src string) ParseOut {
+	p := newBuilder(Mode{}).Build(src)
+	prog := &ast.Program{Statements: []ast.Statement{}}
+	if p.CurrentToken.Type != token.EOF {
+		if st := p.ParseStatement(); !walkNil(st) {
+			prog.Statements = append(prog.Statements, st)
+		}
+		p.NextToken()
+	}
+	rest, err := p.ParseProgram()
+	if rest != nil {
+		prog.Statements = append(prog.Statements, rest.Statements...)
+		prog.EOF = rest.EOF
+	}
+	if errs := p.Errors(); err == nil && len(errs) > 0 {
+		err = fmt.Errorf("parsing failed with %d errors: %v", len(errs), errs[0])
+	}
+	return ParseOut{Prog: prog, Err: err, Errors: p.Errors(), P: p}
+}
+
 // parseByHand drives the statement loop through the public API (ParseStatement / NextToken), the way a REPL or a tool
 // that wants the statements one at a time does, and reads Errors() afterwards. Same steps as ParseProgram.
 func parseByHand(src string, m Mode) ParseOut {
